@@ -12,6 +12,9 @@ recursion (a fatal stack overflow in Go).
 
 `readDir` is a function of the directory alone: the Go `dir` value has no read offset (fs.go:217-252).
 
+`New` cleans the working directory, `ChangeDir` stores it raw (`statCD`/`openCD`): they differ for the empty
+working directory only (`Join("", "") = ""` is not found, `Join(".", "") = "."` is the root).
+
 Not modelled: blob download errors other than "missing", mtime, a `Tree` whose children do not contain a
 referenced digest (nil dereference in Go), `FindNode` on foreign `fs.FS` values.
 -/
@@ -117,6 +120,13 @@ def openAt (root : Dir) : Nat → Str → OpenRes
 
 /-- `Open(name)`. -/
 def openFS (root : Dir) (fuel : Nat) (wd name : Str) : OpenRes := openAt root fuel (pathJoin [pathClean wd, name])
+
+/-- `ChangeDir(path)` keeps the working directory exactly as given (`New` cleans it): `Stat`/`FindNode` and
+    `Open` on such a view. -/
+def statCD (root : Dir) (wd name : Str) : Option Info :=
+  (findNode root (comps (pathJoin [wd, name]))).map Node.info
+
+def openCD (root : Dir) (fuel : Nat) (wd name : Str) : OpenRes := openAt root fuel (pathJoin [wd, name])
 
 /-- The entries of a directory in the order `ReadDir` produces them. -/
 def entries (d : Dir) : List Info :=
